@@ -212,6 +212,12 @@ static void op_stream_io(const std::vector<uint32_t> &sc) {
     // extraction: the token an std::basic_string extraction stores, and what ST::string stores
     S.emplace_back("ext_char_std", guard([&] { std::istringstream is(a.b); std::string t; is >> t; return junits(t.data(), t.size()); }));
     S.emplace_back("ext_char", guard([&] { std::istringstream is(a.b); string t; is >> t; return jstr(t); }));
+    // the target already holds a token from an earlier read: like std::basic_string, it must end up holding exactly
+    // what this extraction stored (the empty string when there is no token)
+    S.emplace_back("ext_char_reuse_std", guard([&] { std::istringstream is(a.b); std::string t = "old"; is >> t; return junits(t.data(), t.size()); }));
+    S.emplace_back("ext_char_reuse", guard([&] { std::istringstream is(a.b); string t = ST_LITERAL("old"); is >> t; return jstr(t); }));
+    S.emplace_back("ext_char_nows_std", guard([&] { std::istringstream is(a.b); std::string t = "old"; is >> std::noskipws >> t; return junits(t.data(), t.size()); }));
+    S.emplace_back("ext_char_nows", guard([&] { std::istringstream is(a.b); string t = ST_LITERAL("old"); is >> std::noskipws >> t; return jstr(t); }));
     S.emplace_back("ext_wchar_std", guard([&] { std::wistringstream is(a.bw); std::wstring t; is >> t; return junits(t.data(), t.size()); }));
     S.emplace_back("ext_wchar", guard([&] { std::wistringstream is(a.bw); string t; is >> t; return jstr(t); }));
     Out &o = out();
@@ -317,18 +323,23 @@ static void op_parse(const Bytes &text, int base) {
          .c(',').k("plain").s(sgn ? jsnum(plain_s) : jnum(plain_u)).c('}');
     };
     char *e; ST::conversion_result cr;
+    // the result object is REUSED: before every call it holds the flags of an unrelated earlier conversion
+    // (alternately "ok + full match" and "neither"), which the call must overwrite completely
+    int primes = (int)(SH.idx & 1);        // which of the two stale states comes first alternates from event to event
+    auto prime = [&] { if (primes++ & 1) (void)string("x").to_int(cr); else (void)string("7").to_int(cr); };
+#define PRIMED(expr) (prime(), (expr))
     errno = 0; long l = strtol(z.c_str(), &e, base); long cl = e - z.c_str();
-    { long v = s.to_long(cr, base); one("i64l", true, l, 0, cl, v, 0, cr, s.to_long(base), 0, true); }
-    { int v = s.to_int(cr, base); one("i32", true, l, 0, cl, v, 0, cr, s.to_int(base), 0, false); }
-    { short v = s.to_short(cr, base); one("i16", true, l, 0, cl, v, 0, cr, s.to_short(base), 0, false); }
+    { long v = PRIMED(s.to_long(cr, base)); one("i64l", true, l, 0, cl, v, 0, cr, s.to_long(base), 0, true); }
+    { int v = PRIMED(s.to_int(cr, base)); one("i32", true, l, 0, cl, v, 0, cr, s.to_int(base), 0, false); }
+    { short v = PRIMED(s.to_short(cr, base)); one("i16", true, l, 0, cl, v, 0, cr, s.to_short(base), 0, false); }
     long long ll = strtoll(z.c_str(), &e, base); long cll = e - z.c_str();
-    { long long v = s.to_long_long(cr, base); one("i64", true, ll, 0, cll, v, 0, cr, s.to_long_long(base), 0, false); }
+    { long long v = PRIMED(s.to_long_long(cr, base)); one("i64", true, ll, 0, cll, v, 0, cr, s.to_long_long(base), 0, false); }
     unsigned long ul = strtoul(z.c_str(), &e, base); long cul = e - z.c_str();
-    { unsigned long v = s.to_ulong(cr, base); one("u64l", false, 0, ul, cul, 0, v, cr, 0, s.to_ulong(base), false); }
-    { unsigned int v = s.to_uint(cr, base); one("u32", false, 0, ul, cul, 0, v, cr, 0, s.to_uint(base), false); }
-    { unsigned short v = s.to_ushort(cr, base); one("u16", false, 0, ul, cul, 0, v, cr, 0, s.to_ushort(base), false); }
+    { unsigned long v = PRIMED(s.to_ulong(cr, base)); one("u64l", false, 0, ul, cul, 0, v, cr, 0, s.to_ulong(base), false); }
+    { unsigned int v = PRIMED(s.to_uint(cr, base)); one("u32", false, 0, ul, cul, 0, v, cr, 0, s.to_uint(base), false); }
+    { unsigned short v = PRIMED(s.to_ushort(cr, base)); one("u16", false, 0, ul, cul, 0, v, cr, 0, s.to_ushort(base), false); }
     unsigned long long ull = strtoull(z.c_str(), &e, base); long cull = e - z.c_str();
-    { unsigned long long v = s.to_ulong_long(cr, base); one("u64", false, 0, ull, cull, 0, v, cr, 0, s.to_ulong_long(base), false); }
+    { unsigned long long v = PRIMED(s.to_ulong_long(cr, base)); one("u64", false, 0, ull, cull, 0, v, cr, 0, s.to_ulong_long(base), false); }
     o.s("]}\n"); o.maybe_flush(); ++g_events;
 }
 
@@ -385,9 +396,11 @@ static void op_parsef(const Bytes &text) {
     Out &o = out();
     o.s(h.b).c(',').k("size").i((long long)text.size());
     double d = strtod(z.c_str(), &e); long cd = e - z.c_str();
+    (void)string("7").to_int(cr);          // stale "ok + full match" flags from an earlier conversion
     double gd = s.to_double(cr);
     o.c(',').k("d").s("{").k("libc").s(jbits(d)).c(',').k("consumed").i(cd).c(',').k("v").s(jbits(gd)).c(',').k("ok").i(cr.ok()).c(',').k("full").i(cr.full_match()).c(',').k("plain").s(jbits(s.to_double())).c('}');
     float f = strtof(z.c_str(), &e); long cf = e - z.c_str();
+    if (text.size() & 1) (void)string("x").to_int(cr); else (void)string("7").to_int(cr);
     float gf = s.to_float(cr);
     o.c(',').k("f").s("{").k("libc").s(jbits(f)).c(',').k("consumed").i(cf).c(',').k("v").s(jbits(gf)).c(',').k("ok").i(cr.ok()).c(',').k("full").i(cr.full_match()).c(',').k("plain").s(jbits(s.to_float())).c('}');
     o.s("}\n"); o.maybe_flush(); ++g_events;
@@ -437,6 +450,9 @@ static void gen_numfields() {
     static const char *tails[] = {"}", "x}", "", ">}", "}z", "c}"};
     static const char *pre[] = {"", "a", "{{"};
     auto L = arg_lists();
+    // a long padding run arriving when the output buffer already holds text, at widths around its capacities
+    for (const char *w : {"246", "247", "255", "256", "257", "502", "510", "511", "512", "513", "1014", "1023", "1025"})
+        for (const char *pr : {"", "0123456789"}) for (size_t k = 1; k <= 2; ++k) op_fmt(Bytes(pr) + "{" + w + "}z", L[k]);
     for (const char *in : intro) for (const char *nm : nums) {
         if (!*in) { if (nm[0] < '1' || nm[0] > '9') continue; int w = (int)strtol(nm, nullptr, 10); if (w > 2000) continue; }
         for (const char *tl : tails) for (const char *pr : pre) {
@@ -512,7 +528,7 @@ static void gen_int_layouts() {
     // count is (width - sign - prefix - digits) clamped at zero, also when the width lies between the number of
     // digits and the full natural size
     for (long long v : {0LL, 5LL, 0xabcLL, -0xabcLL, 255LL, -1LL}) for (const char *cl : {"", "x", "X", "o", "b"}) for (const char *fl : {"", "#", "+", "#+"})
-        for (const char *pd : {"", "0", "_*", "<", "<_."}) for (int w = 1; w <= 14; ++w) {
+        for (const char *pd : {"", "0", "_*", "<", "<_.", "0_*", "_*0", ">0_."}) for (int w = 1; w <= 14; ++w) {
             Bytes sp = "{"; sp += pd; sp += std::to_string(w); sp += fl; sp += cl; sp += "}|";
             op_fmt(sp, {mk_int(v < 0 ? AnyArg::I32 : AnyArg::U32, v, (unsigned long long)v)});
             if (w % 5 == 0) op_fmt(sp, {mk_int(AnyArg::I64, v, (unsigned long long)v)});
@@ -545,9 +561,14 @@ static void gen_random_bytes(Rng &rng, long long count) {
     for (long long k = 0; k < count; ++k) {
         Bytes f; int n = (int)rng.below(40);
         for (int i = 0; i < n; ++i) { unsigned char c = rng.below(5) ? special[rng.below(sizeof special)] : (unsigned char)(1 + rng.below(255)); f.push_back((char)c); }
-        // keep numbers either short or saturating: 10..19-digit runs are outside the modelled domain
-        Bytes g; int run = 0;
-        for (char c : f) { if (c >= '0' && c <= '9') { if (++run > 8) continue; } else run = 0; g.push_back(c); }
+        // a digit run that can be a field WIDTH stays below 1000 (a larger one legitimately asks for megabytes of
+        // padding); after '.' or '&' (precision, argument reference) any length is harmless
+        Bytes g; int run = 0; char before = 0;
+        for (char c : f) {
+            if (c >= '0' && c <= '9') { ++run; if (run > ((before == '.' || before == '&') ? 8 : 3)) continue; }
+            else { run = 0; before = c; }
+            g.push_back(c);
+        }
         if (rng.below(10) == 0) { size_t pos = g.find_first_of(".&"); if (pos != Bytes::npos) g.insert(pos + 1, "123456789012345678901234"); }
         op_fmt(g, L[rng.below(L.size())]);
     }
